@@ -140,9 +140,11 @@ def write_tape(path, t):
         f.write(struct.pack('<%dH' % len(t), *t))
 
 
-def minimise(exe, tape_path, tier, env_extra, budget, fuzz=False, timeout=120):
-    """tape-level ddmin: delete chunks, then zero / halve values."""
+def minimise(exe, tape_path, tier, env_extra, budget, fuzz=False, timeout=40):
+    """tape-level ddmin: delete chunks, then zero / halve values. Bounded by a replay budget AND a wall-clock cap
+    (a cap on *minimisation effort* only: the verdict comes from the three confirming replays afterwards)."""
     tape = read_tape(tape_path)
+    t_end = time.time() + (150 if tier == 'quick' else 900)
     work = os.path.join(RUN, 'min-%d' % os.getpid())
     os.makedirs(work, exist_ok=True)
     used = [0]
@@ -169,7 +171,7 @@ def minimise(exe, tape_path, tier, env_extra, budget, fuzz=False, timeout=120):
     while tape and tape[-1] == 0:
         tape.pop()
     chunk = max(1, len(tape) // 2)
-    while chunk >= 1 and used[0] < budget:
+    while chunk >= 1 and used[0] < budget and time.time() < t_end:
         i = 0
         progress = False
         cands, idx = [], []
@@ -182,13 +184,13 @@ def minimise(exe, tape_path, tier, env_extra, budget, fuzz=False, timeout=120):
                     tape = cands[k]; progress = True
                     i = idx[k]
                 cands, idx = [], []
-                if used[0] >= budget:
+                if used[0] >= budget or time.time() > t_end:
                     break
         if not progress:
             chunk //= 2
     # value pass
     j = 0
-    while j < len(tape) and used[0] < budget:
+    while j < len(tape) and used[0] < budget and time.time() < t_end:
         cands, idx = [], []
         for k in range(j, min(len(tape), j + 16)):
             if tape[k] != 0:
@@ -439,9 +441,13 @@ def main(argv):
 
     def handle_candidates(cands, arm):
         seen_summ = set()
+        tried = 0
+        # smallest tapes first; one confirmed violation ends a quick run, three a thorough one
+        cands = sorted(cands, key=lambda x: os.path.getsize(x[0]))
         for tape, exe, is_fuzz in cands:
-            if len(violations) >= 3:
+            if len(violations) >= (1 if a.tier == 'quick' else 3) or tried >= (3 if a.tier == 'quick' else 8):
                 break
+            tried += 1
             budget = 250 if a.tier == 'quick' else 1500
             try:
                 mt, still = minimise(exe, tape, a.tier, arm.get('env'), budget, is_fuzz)
@@ -456,9 +462,10 @@ def main(argv):
                 res['inconclusive'].append('failure not stable over three replays: %s' % tape)
                 continue
             summ = summarize_failure(txt)
-            if summ in seen_summ:
+            norm = re.sub(r'0x[0-9a-f]+|\d+', '#', summ)
+            if norm in seen_summ:
                 continue
-            seen_summ.add(summ)
+            seen_summ.add(norm)
             os.makedirs(vdir, exist_ok=True)
             h = hashlib.sha256(open(mt, 'rb').read()).hexdigest()[:12]
             name = ('fuzz-' if is_fuzz else '') + arm['name'] + '--' + h + ('.bin' if is_fuzz else '.tape')
